@@ -2,6 +2,9 @@ import IpaVerif.Model.Util
 import IpaVerif.Model.Dzkp
 import IpaVerif.Model.DzkpStore
 import IpaVerif.Model.DzkpBatch
+import IpaVerif.Model.DzkpValidator
+import IpaVerif.Model.Batcher
+import IpaVerif.Generated.BatcherConsts
 /-! Line-protocol handlers for property C03 (model side) and the spec-side oracle. Import-free.
 
 Requests
@@ -16,6 +19,8 @@ Requests
   c03.validate api ty count mpg seed dev           dev = `-` or helper:field:record:bit
   c03.store first max gate:record:width:f0.….f6;…   block dump per gate
   c03.batch seed prover uidx vidx dev rho mp mq chs    dev = `-` | alt:pos | two:pos ; rho/mp/mq/chs observed
+  c03.vstore rpb|max total|- op;op;…               op = gate:record:width:f0.….f6 (push) | v<record>; dump of the validator's tables
+  c03.order ty count rpb gates seed script[/script/script]   script = <gate letter><record> | v<batch>, comma separated
 -/
 namespace IpaVerif.Driver.C03
 open IpaVerif.Util IpaVerif.PrimeField IpaVerif.Generated IpaVerif.Generated.Dzkp IpaVerif.Dzkp
@@ -273,6 +278,241 @@ def batchOracle (us vs dev impl : String) : Option String := do
           else "fails a batch containing an inconsistent multiplication was accepted (the prover's proofs do not bind it to the verifiers' records)")
   else pure "unknown"
 
+
+/-! ### `c03.vstore` and `c03.order`: the tables of a `MaliciousDZKPValidator`
+
+The batcher bookkeeping is the C16 model (`IpaVerif.Batcher`): it says which constructor call built the batch a
+record belongs to, and when a batch is complete. What the constructor closure passes to `Batch::new` and how
+`Batch::push` files a segment is `IpaVerif.DzkpValidator` (anchor machine-translated). -/
+
+structure VSt where
+  bat : IpaVerif.Batcher.State
+  tabs : IpaVerif.DzkpValidator.Tables
+
+def batPanicMsg : IpaVerif.Batcher.Panic → String
+  | .divZero => "divide by zero"
+  | .alreadyValidated b => s!"Attempting to access batch {b}, which has already been validated"
+  | .twice r => s!"validate_record called twice for record {r}"
+  | .exceeds off tc => s!"record offset {off} exceeds batch size {tc}"
+  | .expectedBatch tc => s!"Expected batch of {tc} records"
+  | _ => ""
+
+def VSt.new (rpb : Nat) (total : IpaVerif.Batcher.Total) : VSt :=
+  { bat := IpaVerif.Batcher.State.new rpb total IpaVerif.Generated.targetProofSizeTest,
+    tabs := IpaVerif.DzkpValidator.Tables.new rpb }
+
+/-- `DZKPUpgraded::push`: `get_batch(record)` (C16 model: which constructor call), then `Batch::push`. -/
+def VSt.push (st : VSt) (g : String) (r : Nat) (seg : IpaVerif.DzkpStore.Segment) : Except String VSt :=
+  match IpaVerif.Batcher.getBatchPush st.bat r 0 with
+  | (_, .error p) => .error ("panic:" ++ batPanicMsg p)
+  | (bat', .ok (ctor, _)) =>
+    match st.tabs.pushAt ctor g r seg with
+    | .ok t => .ok { bat := bat', tabs := t }
+    | .panic m => .error ("panic:" ++ m)
+
+inductive VRes where
+  | err (tag : String)
+  | pend
+  /-- this call completed the batch built by constructor call `ctor` -/
+  | ready (ctor : Nat)
+
+def VSt.validate (st : VSt) (r : Nat) : Except String (VSt × VRes) :=
+  match IpaVerif.Batcher.validateRecord st.bat r with
+  | (_, .panic p) => .error ("panic:" ++ batPanicMsg p)
+  | (bat', .err .missingTotal) => .ok ({ st with bat := bat' }, .err "err:missing-total")
+  | (bat', .err .outOfRange) => .ok ({ st with bat := bat' }, .err "err:out-of-range")
+  | (bat', .err _) => .ok ({ st with bat := bat' }, .err "err")
+  | (bat', .notReady _) => .ok ({ st with bat := bat' }, .pend)
+  | (bat', .ready _ bs) => .ok ({ st with bat := bat' }, .ready bs.ctor)
+
+def batchDump (b : IpaVerif.DzkpStore.Batch) : String :=
+  let gates := b.inner.map fun (g, st) =>
+    s!" {g}=" ++ (if st.vec.isEmpty then "-" else String.intercalate "|" (st.vec.map blockHex))
+  let f := match b.first with | some r => toString r | none => "-"
+  s!"f={f} n={b.numberOfMultiplications} e={boolStr b.isEmpty}" ++ String.join gates
+
+def parseRpb (s : String) : Option Nat :=
+  if s == "max" then some IpaVerif.Generated.DzkpValidator.usizeMax else s.toNat?
+
+def parseTotalRecords (s : String) : Option IpaVerif.Batcher.Total :=
+  if s == "-" then some .unspecified else s.toNat?.map .specified
+
+def vstoreRun (rpb : Nat) (total : IpaVerif.Batcher.Total) (ops : List String) : Option String := do
+  let mut st := VSt.new rpb total
+  let mut outs : List String := []
+  for op in ops do
+    if op.startsWith "v" then
+      let r ← (op.drop 1).toString.toNat?
+      match st.validate r with
+      | .error p => return p
+      | .ok (st', res) =>
+        st := st'
+        match res with
+        | .err t => outs := outs ++ [t]
+        | .pend => outs := outs ++ ["pend"]
+        -- an empty batch is accepted at once; a batch with content starts the proof exchange and waits for the peers
+        | .ready ctor => outs := outs ++ [if (st.tabs.get ctor).isEmpty then "ok" else "pend"]
+    else
+      match op.splitOn ":" with
+      | [g, r, w, segs] =>
+        let seg ← parseSeg (← w.toNat?) segs
+        match st.push g (← r.toNat?) seg with
+        | .ok st' => st := st'
+        | .error p => return p
+      | _ => none
+  let slots := st.bat.batches.map fun
+    | none => "N"
+    | some bs => batchDump (st.tabs.get bs.ctor)
+  let o := if outs.isEmpty then "-" else String.intercalate "," outs
+  let sl := if slots.isEmpty then "-" else String.intercalate " / " slots
+  pure s!"{o} | x:{st.bat.firstBatch}:{sl} | drop={if st.bat.batches.isEmpty then "ok" else "unsafe"}"
+
+def tyWidth (ty : String) : Option Nat :=
+  if ty == "b1" then some 1 else if ty.startsWith "ba" then (ty.drop 2).toString.toNat? else none
+
+inductive OTok where
+  | push (g : String) (r : Nat)
+  | validate (b : Nat)
+
+def parseOrderScript (s : String) : Option (List OTok) :=
+  (s.splitOn ",").mapM fun t => do
+    let n ← (t.drop 1).toString.toNat?
+    let c := (t.take 1).toString
+    if c == "v" then pure (OTok.validate n) else if c == "a" ∨ c == "b" ∨ c == "c" then pure (OTok.push c n) else none
+
+def orderScripts (s : String) : Option (List (List OTok)) :=
+  match s.splitOn "/" with
+  | [one] => do let sc ← parseOrderScript one; pure [sc, sc, sc]
+  | [a, b, c] => [a, b, c].mapM parseOrderScript
+  | _ => none
+
+/-- one helper of `c03.order`: every push goes through the validator model (segment contents do not matter for
+the layout); a completed batch of honest multiplications is accepted (`C03Batch.honest_accept`). -/
+def orderHelper (width count rpb : Nat) (script : List OTok) : Except String String := do
+  let zero : IpaVerif.DzkpStore.Segment := { width := width, xl := 0, xr := 0, yl := 0, yr := 0, pl := 0, pr := 0, zr := 0 }
+  let mut st := VSt.new rpb (.specified count)
+  let mut verdicts : List Char := List.replicate count '-'
+  for tok in script do
+    match tok with
+    | .push g r => st ← st.push g r zero
+    | .validate b =>
+      let recs := (List.range count).filter fun r => r / rpb == b
+      let mut completed := false
+      let mut res : List (Nat × Char) := []
+      for r in recs do
+        let (st', v) ← st.validate r
+        st := st'
+        match v with
+        | .err _ => res := res ++ [(r, 'e')]
+        | .pend => res := res ++ [(r, 'o')]
+        | .ready _ => completed := true; res := res ++ [(r, 'o')]
+      if ¬ completed ∧ res.any (·.2 == 'o') then throw "timeout"
+      for (r, c) in res do
+        verdicts := verdicts.set r c
+  pure (String.ofList verdicts)
+
+def orderRun (ty count rpb script : String) : Option String := do
+  let w ← tyWidth ty
+  let count ← count.toNat?
+  let rpb ← rpb.toNat?
+  let scripts ← orderScripts script
+  let rs := scripts.map (orderHelper w count rpb)
+  match rs.find? (fun r => match r with | .error _ => true | .ok _ => false) with
+  | some (.error p) => pure p
+  | _ => pure (String.intercalate "," (rs.map fun r => match r with | .ok s => s | .error p => p))
+
+/-- spec side of `c03.order`: whatever the order in which the (honest) multiplications of a batch report, every
+record of every validated batch is accepted by every helper. Judged only for well-formed scripts (each gate
+reports each record once, before its batch is validated; every batch validated once). -/
+def orderOracle (count rpb gates script impl : String) : Option String := do
+  let count ← count.toNat?
+  let rpb ← rpb.toNat?
+  let ngates ← gates.toNat?
+  let scripts ← orderScripts script
+  if rpb = 0 ∨ count = 0 then pure "unknown" else
+  let nb := (count + rpb - 1) / rpb
+  let letters := ["a", "b", "c"].take ngates
+  let wellFormed (sc : List OTok) : Bool := Id.run do
+    let mut pushed : List (String × Nat) := []
+    let mut validated : List Nat := []
+    let mut ok := true
+    for t in sc do
+      match t with
+      | .push g r =>
+        if r ≥ count ∨ ¬ letters.contains g ∨ pushed.contains (g, r) ∨ validated.contains (r / rpb) then ok := false
+        pushed := (g, r) :: pushed
+      | .validate b =>
+        if b ≥ nb ∨ validated.contains b then ok := false
+        -- every record of the batch has reported for every gate
+        for r in (List.range count).filter (fun r => r / rpb == b) do
+          for g in letters do
+            if ¬ pushed.contains (g, r) then ok := false
+        validated := b :: validated
+    return ok && validated.length == nb && pushed.length == count * ngates
+  if ¬ scripts.all wellFormed then pure "unknown" else
+  let want := String.ofList (List.replicate count 'o')
+  if impl == String.intercalate "," [want, want, want] then pure "holds"
+  else pure "fails an honest batch was not accepted: the order in which records report their intermediates must not matter"
+
+/-- spec side of `c03.vstore`: the dump must show, for every batch that is still open, exactly the in-order table
+of the records pushed into it — layout anchored at `batch · rpb` whatever was pushed first (`storeSpec`, computed
+from the request bit by bit) —, closed batches gone, and nothing else. Judged for scripts without a documented
+panic (push into a closed batch, width mismatch, single-shot store with a record below the first pushed one). -/
+def vstoreOracle (rpbS totalS : String) (ops : List String) (impl : String) : Option String := do
+  let single := rpbS == "max"
+  let rpb ← parseRpb rpbS
+  let total : Option Nat := totalS.toNat?
+  if rpb = 0 then pure "unknown" else
+  let mut closed : List Nat := []
+  let mut asked : List Nat := []
+  let mut pushes : List (Nat × String) := []   -- (batch, op) in script order
+  let mut touched : List Nat := []
+  let mut outs : List String := []
+  for op in ops do
+    if op.startsWith "v" then
+      let r ← (op.drop 1).toString.toNat?
+      match total with
+      | none => return "unknown"
+      | some t =>
+        let b := r / rpb
+        if r ≥ t ∨ asked.contains r ∨ closed.contains b then return "unknown"
+        asked := r :: asked
+        touched := b :: touched
+        let size := Nat.min rpb (t - b * rpb)
+        if (asked.filter fun x => x / rpb == b).length == size then
+          if pushes.any (·.1 == b) then return "unknown"
+          closed := b :: closed
+          outs := outs ++ ["ok"]
+        else outs := outs ++ ["pend"]
+    else
+      match op.splitOn ":" with
+      | [_, r, _, _] =>
+        let r ← r.toNat?
+        let b := r / rpb
+        if closed.contains b then return "unknown"
+        pushes := pushes ++ [(b, op)]
+        touched := b :: touched
+      | _ => none
+  let top := touched.foldl Nat.max 0
+  -- first open batch: every closed batch below it has been popped
+  let firstBatch := ((List.range (top + 2)).find? fun b => ¬ closed.contains b).getD 0
+  let mut slots : List String := []
+  if ¬ touched.isEmpty then
+    for b in List.range (top + 1) do
+      if b ≥ firstBatch then
+        if closed.contains b then slots := slots ++ ["N"] else
+        let mine := (pushes.filter (·.1 == b)).map (·.2)
+        match ← storeSpec (if single then none else some (b * rpb)) rpb mine with
+        | none => return "unknown"
+        | some dump => slots := slots ++ [(if single then "f=- " else s!"f={b * rpb} ") ++ dump]
+  let o := if outs.isEmpty then "-" else String.intercalate "," outs
+  let sl := if slots.isEmpty then "-" else String.intercalate " / " slots
+  let want := s!"{o} | x:{firstBatch}:{sl} | drop={if slots.isEmpty then "ok" else "unsafe"}"
+  if impl == want then pure "holds"
+  else if impl.startsWith "panic" then
+    pure "fails pushing the records of a batch in this order made the validator panic: an honest batch must be accepted whatever the order in which its records are pushed"
+  else pure "fails the validator's tables are not the in-order tables of the pushed records (layout must be anchored at batch·records_per_batch, independent of the push order)"
+
 def handle (toks : List String) : Option String :=
   match toks with
   | ["c03.consts"] => some s!"{inverseOfTwo} {minusOneHalf} {minusTwo}"
@@ -317,6 +557,9 @@ def handle (toks : List String) : Option String :=
       let f ← if first == "-" then some none else first.toNat?.map some
       storeRun f (← max.toNat?) (ops.splitOn ";")).getD "bad-request"
   | ["c03.batch", _seed, _pi, us, vs, dev, rho, mp, mq, chs] => some ((handleBatch us vs dev rho mp mq chs).getD "bad-request")
+  | ["c03.vstore", rpb, total, ops] => some <| (do
+      vstoreRun (← parseRpb rpb) (← parseTotalRecords total) (ops.splitOn ";")).getD "bad-request"
+  | ["c03.order", ty, count, rpb, _gates, _seed, script] => some ((orderRun ty count rpb script).getD "bad-request")
   | _ => none
 
 /-! ## spec side: plain arithmetic modulo p, Fermat inverses, bit formulas -/
@@ -467,6 +710,8 @@ def oracle (toks : List String) (impl : String) : Option String :=
       | none => pure (impl.startsWith "panic")
       | some exp => pure (impl == exp)) "stored blocks are not exactly the pushed segments at stride next_pow2(width) (others zero), or an out-of-range record was accepted"
   | ["c03.batch", _seed, _pi, us, vs, dev, _rho, _mp, _mq, _chs] => some ((batchOracle us vs dev impl).getD "unknown")
+  | ["c03.vstore", rpb, total, ops] => some ((vstoreOracle rpb total (ops.splitOn ";") impl).getD "unknown")
+  | ["c03.order", _ty, count, rpb, gates, _seed, script] => some ((orderOracle count rpb gates script impl).getD "unknown")
   | "c03.table" :: _ => some "unknown"
   | "c03.proof" :: _ => some "unknown"
   | _ => none
